@@ -58,6 +58,12 @@ PROPS = {
                       "registers, flags, memory, XMM, trace/call-stack/counters must agree. Model-map iteration starts at an arbitrary rotation (H1)",
             "outside": "error *texts* (formatter stubbed); cross-process effects other than RNG draws and hash order (the code reads no clock/env); whole programs (follows per step)",
             "trusted": INSN_TRUSTED, "assumptions": ["pipe descriptor numbers are excluded by the property"]},
+    "C18": {"bounds": "content: every implemented JMP/Jcc/JRCXZ/JECXZ/CALL/RET form (the generated control-transfer harnesses) from a pre-state whose trace ends "
+                      "in an arbitrary entry (any variant, source, target, count; level within +-1000) and whose call stack has 0 or 1 arbitrary entries, compared "
+                      "with an independent tracer (add_trace depends only on the last entry, so longer traces follow by induction); rendering: trace() and "
+                      "call_stack() on one arbitrary entry with any i16 level and 0..=1 call-stack entries, decoder and formatter stubbed, arguments evaluated",
+            "outside": "the rendered text; to_string(); nesting deeper than +-1000 (the i16 level counter overflows at 32767 nested calls); call stacks longer than 1 entry",
+            "trusted": INSN_TRUSTED, "assumptions": []},
     "C11": {"bounds": "one real step() from arbitrary loop-control state (RIP, code_end_addr, finished, executed count, Option<limit>, stack_top all symbolic) with the "
                       "decoder replaced by 'fails or delivers an instruction of any length 1..=15' and the dispatch by 'no effect / write any RIP / ordinary error / "
                       "normal-finish error'; limit exactness by induction on the count; top-level RET rule on the real init_stack + CALL + RET handlers (depth 0 and 1). "
@@ -107,7 +113,7 @@ PROPS = {
 }
 
 
-INSN_PROPS = {"C01", "C02", "C03", "C04", "C05", "C06", "C08", "C09", "C19", "C20"}
+INSN_PROPS = {"C01", "C02", "C03", "C04", "C05", "C06", "C08", "C09", "C18", "C19", "C20"}
 
 
 def generate(sc, prop, tier, seed):
